@@ -16,7 +16,7 @@ command of every history the C20 check runs).  State that a SEQUENCE of authenti
 
 The MAC computations are `Auth.LiteTag.mac` / `Auth.LiteTag.macA` (words, little endian, written
 from the manual; tied to `sims/auth_des.py`).  Polling is not mirrored (the modelled reader methods
-never poll).
+never poll; `Model/AuthNdef.lean` does).
 -/
 namespace NfcVerif.AuthCard
 open NfcVerif NfcVerif.Mac NfcVerif.Auth
@@ -148,11 +148,31 @@ def parseBlocks : Nat → Bytes → Option (List Nat × Bytes)
     | none => none
   | _ + 1, _ => none
 
+def pmm (c : Card) : Bytes := [0x00, if c.liteS then 0xF1 else 0xF0, 0x00, 0x00, 0x02, 0x06, 0x03, 0x00]
+
+/-- SYS_OP of MC: the card answers to the NDEF system code 12FCh -/
+def ndefFlag (c : Card) : Bool :=
+  match (c.blk 0x88).drop 3 with
+  | a :: _ => a = 1
+  | _ => false
+
+/-- Polling (six octets: length, 00, system code, request code, time slots) -/
+def polling (c : Card) (cmd : Bytes) : Option Bytes :=
+  match cmd with
+  | [_, _, s0, s1, rc, _] =>
+    if (s0 = 0xFF ∧ s1 = 0xFF) ∨ (s0 = 0x88 ∧ s1 = 0xB4) ∨ (s0 = 0x12 ∧ s1 = 0xFC ∧ c.ndefFlag) then
+      let rsp := c.idm ++ c.pmm ++
+        (if rc = 1 then (if c.ndefFlag ∧ ¬ (s0 = 0x88 ∧ s1 = 0xB4) then [0x12, 0xFC] else [0x88, 0xB4]) else [])
+      some ([2 + rsp.length, 1] ++ rsp)
+    else none
+  | _ => none
+
 /-- one command frame as it arrives at the card: the response frame (if any) and the new state -/
 def command (C : Cipher) (c : Card) (cmd : Bytes) : Option Bytes × Card :=
   match cmd with
   | l :: code :: _ =>
     if l ≠ cmd.length then (none, c)
+    else if code = 0 then (c.polling cmd, c)
     else if cmd.length < 14 ∨ (cmd.drop 2).take 8 ≠ c.idm then (none, c)
     else if code ≠ 6 ∧ code ≠ 8 then (none, c)
     else
